@@ -3,13 +3,13 @@
 # Applies the edit(s) to a scratch copy of /repo/src, runs the quick check against it, removes the copy.
 PROP=$1; shift
 D=$(mktemp -d /tmp/mutsrc.XXXXXX)
-cp -r /repo/src "$D/src"
+HERE="$(cd "$(dirname "$0")/.." && pwd)"
+cp -r "${VERIF_REPO:-/repo}/src" "$D/src"
 while [ $# -ge 2 ]; do
   f="$D/src/$1"; before=$(md5sum "$f")
   sed -i -E "$2" "$f"
   [ "$before" == "$(md5sum "$f")" ] && echo "MUTATION DID NOT APPLY: $1 $2"
   shift 2
 done
-VERIF_REPO_SRC="$D/src" /verif/check "$PROP" --tier quick 2>&1 | grep -E '^\[|VIOLATION|KNOWN' | cut -c1-400
-for f in /verif/evidence/replays/*; do :; done
+VERIF_REPO_SRC="$D/src" "$HERE/check" "$PROP" --tier quick 2>&1 | grep -E '^\[|VIOLATION|KNOWN' | cut -c1-400
 rm -rf "$D"
